@@ -24,6 +24,7 @@ package bcl
 //@   requires reader: r != nil
 //@   ensures [C13] complete_or_error: result1 == nil ==> old(g.rlen - g.rp) >= 1 && old(g.rlen - g.rp) >= uvneed(rbyte(old(g.rp)))
 //@   ensures [C09,C14] value: result1 == nil ==> result0 == uvstream(old(g.rp)) && g.rp == old(g.rp) + uvneed(rbyte(old(g.rp)))
+//@   ensures [C09] error_only_when_the_encoding_is_truncated: result1 != nil ==> old(g.rlen - g.rp) < 1 || old(g.rlen - g.rp) < uvneed(rbyte(old(g.rp)))
 //@   ensures [C13] no_new_short_read: result1 == nil ==> g.short == old(g.short)
 //@   ensures position: g.rp >= old(g.rp)
 //
@@ -31,6 +32,7 @@ package bcl
 //@   requires reader: r != nil
 //@   ensures [C13] complete_or_error: result1 == nil ==> old(g.rlen - g.rp) >= 1 && old(g.rlen - g.rp) >= uvneed(rbyte(old(g.rp)))
 //@   ensures [C09,C14] value: result1 == nil ==> result0 == uvstream(old(g.rp)) && g.rp == old(g.rp) + uvneed(rbyte(old(g.rp))) && result0 <= 2147483647
+//@   ensures [C09] error_only_when_truncated_or_too_large: result1 != nil ==> old(g.rlen - g.rp) < 1 || old(g.rlen - g.rp) < uvneed(rbyte(old(g.rp))) || uvstream(old(g.rp)) > 2147483647
 //@   ensures [C13] no_new_short_read: result1 == nil ==> g.short == old(g.short)
 //@   ensures position: g.rp >= old(g.rp)
 //
@@ -57,6 +59,7 @@ package bcl
 //@   ensures [C09,C14] bool_value: (result1 == nil && rbyte(old(g.rp)) == byte(typeBOOL)) ==> result0 == VBool(rbyte(old(g.rp) + 1) != 0) && g.rp == old(g.rp) + 2
 //@   ensures [C09,C14] nil_value: (result1 == nil && rbyte(old(g.rp)) == byte(typeNIL)) ==> result0 == VNil() && g.rp == old(g.rp) + 1
 //@   ensures [C13,C14] known_type_or_error: result1 == nil ==> rbyte(old(g.rp)) <= byte(typeBOOL)
+//@   ensures [C09] error_only_when_truncated_or_invalid: result1 != nil ==> old(g.rlen - g.rp) < 1 || rbyte(old(g.rp)) > byte(typeBOOL) || (rbyte(old(g.rp)) == byte(typeINT) && (old(g.rlen - g.rp) < 2 || old(g.rlen - g.rp) < 1 + uvneed(rbyte(old(g.rp) + 1)))) || (rbyte(old(g.rp)) == byte(typeFLOAT) && old(g.rlen - g.rp) < 9) || (rbyte(old(g.rp)) == byte(typeBOOL) && old(g.rlen - g.rp) < 2) || (rbyte(old(g.rp)) == byte(typeSTR) && (old(g.rlen - g.rp) < 2 || old(g.rlen - g.rp) < 1 + uvneed(rbyte(old(g.rp) + 1)) || uvstream(old(g.rp) + 1) > 2147483647 || old(g.rlen - g.rp) < 1 + uvneed(rbyte(old(g.rp) + 1)) + int(uvstream(old(g.rp) + 1))))
 //@   ensures [C09,C06] decoded_values_are_storable: result1 == nil ==> storable(result0)
 //@   ensures position: g.rp >= old(g.rp)
 //
@@ -83,6 +86,7 @@ package bcl
 //
 // Load: never panics, and succeeds only if no read came up short; the header is checked
 //@ func (*Prog).Load
+//@   ghost loaderr = err
 //@   requires fresh_stream: g.rp == 0 && !g.short && g.rlen >= 0
 //@   ensures [C13] no_short_read_when_ok: err == nil ==> !g.short
 //@   ensures [C13,C14] header_checked: err == nil ==> g.rlen >= 4 && rbyte(0) == 252 && rbyte(1) == 108 && rbyte(2) == 1 && rbyte(3) <= 1
